@@ -710,6 +710,10 @@ class JsonDeV:
     __slots__ = ('tree',)
     def __init__(s, tree): s.tree = tree
     def __repr__(s): return f'<serde_json deserializer at {s.tree[0]}>'
+class JsonStreamDeV:
+    """serde_json::Deserializer<StrRead> (model): reads values from a position in the text; `end()` checks for trailing characters"""
+    __slots__ = ('chars', 'i')
+    def __init__(s, chars): s.chars, s.i = list(chars), 0
 class SeqAccV:
     __slots__ = ('items', 'i')
     def __init__(s, items): s.items, s.i = items, 0
@@ -728,6 +732,13 @@ def _visitor_fn(ex, visitor, meth):
 @model_override(r'^<.+ as (?:serde::)?(?:de::)?Deserializer(?:<.*>)?>::deserialize_any$')
 def m_jsonde_any(ex, a, m):
     d = a[0]
+    if isinstance(d, Ptr) and isinstance(d.cell.v, JsonStreamDeV): d = d.cell.v
+    if isinstance(d, JsonStreamDeV):
+        from . import jsonmodel
+        r = jsonmodel.Reader(ex, d.chars); r.i = d.i
+        try: tree = r.value()
+        except jsonmodel.JsonErr as e: return err(Agg('struct', 'SerdeJsonError', None, [Cell(rstr(str(e)))]))
+        d.i = r.i; d = JsonDeV(tree)
     if not isinstance(d, JsonDeV): return NotImplemented
     vis = a[1]; t = d.tree; k = t[0]
     def call(meth, args):
@@ -1666,6 +1677,24 @@ def m_str_slice_sym(ex, a, m):
 def _is_nl(ex, c):
     from .jsonmodel import is_ch
     return is_ch(ex, c, '\n')
+@model_override(r'^(?:core::|alloc::|std::)?str::<impl str>::(trim|trim_start|trim_end)$')
+def m_str_trim_sym(ex, a, m):
+    """str::trim* on strings with symbolic characters: Unicode White_Space is stripped from the ends (decided per character by forks)"""
+    sv = as_str(a[0])
+    if sv.concrete() is not None: return NotImplemented
+    WS = [(9, 13), (32, 32), (0x85, 0x85), (0xA0, 0xA0), (0x1680, 0x1680), (0x2000, 0x200A), (0x2028, 0x2029), (0x202F, 0x202F), (0x205F, 0x205F), (0x3000, 0x3000)]
+    def is_ws(c):
+        if isinstance(c, str): return c.isspace() and (ord(c) in (0x85, 0xA0, 0x1680, 0x2028, 0x2029, 0x202F, 0x205F, 0x3000) or 9 <= ord(c) <= 13 or ord(c) == 32 or 0x2000 <= ord(c) <= 0x200A)
+        k = c.concrete()
+        if k is not None: return any(lo <= k <= hi for lo, hi in WS)
+        from .jsonmodel import _memo
+        return _memo(ex, (c.bv.get_id(), 'unicode-ws'), lambda: z3.Or(*[z3.And(z3.UGE(c.bv, lo), z3.ULE(c.bv, hi)) for lo, hi in WS]))
+    chars = list(sv.chars); op = m.group(1)
+    if op in ('trim', 'trim_start'):
+        while chars and is_ws(chars[0]): chars.pop(0)
+    if op in ('trim', 'trim_end'):
+        while chars and is_ws(chars[-1]): chars.pop()
+    return Ptr(Cell(StrV(chars)), 'ref')
 @model_override(r'^(?:core::|alloc::|std::)?str::<impl str>::(lines|split|rsplit|split_terminator|matches|rfind|find|split_once|rsplit_once)(::<.*>)?$')
 def m_str_scan_sym(ex, a, m):
     """scanning for a single (concrete) character in a string with symbolic characters; everything else declines to the concrete models"""
@@ -1845,3 +1874,12 @@ def m_slice_split(ex, a, m):
     if op == 'chunks': return IterV(iter([Ptr(Cell(SliceRef(items[i:i + n])), 'ref') for i in range(0, len(items), n)]))
     if op == 'windows': return IterV(iter([Ptr(Cell(SliceRef(items[i:i + n])), 'ref') for i in range(0, max(0, len(items) - n + 1))]))
     raise Unsupported('slice::' + op)
+
+@model_rx(r'^serde_json::Deserializer::from_str$|^serde_json::Deserializer::<.*>::from_str$|^serde_json::de::Deserializer::from_str$')
+def m_sj_deserializer_from_str(ex, a, m): return JsonStreamDeV(as_str(a[0]).chars)
+@model_rx(r'^serde_json::(?:de::)?Deserializer::(?:<.*>::)?end$')
+def m_sj_deserializer_end(ex, a, m):
+    from . import jsonmodel
+    d = a[0].cell.v if isinstance(a[0], Ptr) else a[0]
+    r = jsonmodel.Reader(ex, d.chars); r.i = d.i; r.skip_ws()
+    return ok(UNIT) if r.eof() else err(Agg('struct', 'SerdeJsonError', None, [Cell(rstr('trailing characters'))]))
